@@ -346,6 +346,13 @@ def check_document(drv, files, out, stats, vg, tmp, label):
         return
     if not rep["names_in_scope"]:
         out.disagreements.append({"what": "model: a name is used before it is in scope", **case})
+    # the model's own execution of its module (Py/EvalClass.lean, the subject of C02_module_executes): here the real module
+    # has been executed and every class compared equal to the parsed one, so the model must say the same of its own
+    names = [c.__name__ for c in parsed.values()]
+    if len(set(names)) == len(names):
+        stats["model-exec-compared"] = stats.get("model-exec-compared", 0) + 1
+        if rep.get("execBack") is not True:
+            out.disagreements.append({"what": "executing the generated module rebuilds equal classes", "impl": True, "model": rep.get("execBack"), **case})
     real_classes = [{"name": c["name"], "base": c["base"], "kwargs": c["kwargs"], "doc": c["doc"],
                      "props": [{"attr": p["attr"], "ann": norm_ann(p["ann"]), "expr": p["expr"]} for p in c["props"]]} for c in shape["classes"]]
     model_classes = [{"name": c["name"], "base": c["base"], "kwargs": c["kwargs"], "doc": c["doc"],
